@@ -56,6 +56,12 @@ CLAIMED = {
          "molecule 1 unchanged, every atom of molecule 2 at R(q_k)(x0 - c0) + c0 + p_k (so COM at c0 + p_k), the caller's universes untouched; "
          ">= 2 frames exposes state carried between frames. R(q) is proved orthogonal with det 1 for all q != 0 (distance preservation). "
          "TwoMoleculeWriter._center_both_molecules proved to be a pure translation putting both COMs at the origin.", "§5 C10"),
+ "C16": ("For every text template in the bound (number; lists/tuples of <=4 (5) numbers in any order; linspace with num 1..5 and default; "
+         "range/arange with 1-3 arguments) the template's NUMBERS are symbolic reals: proved for ALL values: result = 10 x intended values "
+         "(sorted permutation for lists via counting; closed forms for linspace/arange with the arange length decided by forking, <= 6), rejection "
+         "only when a distance is negative, increments = (r_1, positive differences) or rejection exactly when the radii are not strictly "
+         "increasing positive, R_k midpoints, R_T, R_1 = 2 r_1, interleaving, include_zero, and the md5 argument is the returned array itself.",
+         "§5 C16"),
 }
 NA = {
  "C03": "Claim is that Qhull's SphericalVoronoi regions/areas are the true nearest-neighbour cells: compiled geometry with no encodable source; a stub would assume the property (the symmetric assembly around it is verified under C04).",
